@@ -9,10 +9,20 @@ import (
 )
 
 // engine "ie": the element codec (property C15)
-//   ie enc <ie> <value>        -> ok <hex> <GetLength> | err <GetLength>
-//   ie rt  <ie> <value> <tail> -> ok <hex> <len> <records> | encerr | decerr   (encode, then let the
-//                                 collector's data-set decoder consume hex+tail with the one-element template)
-//   ie dec <ie> <hex>          -> ok <records> | err     (collector decoder on arbitrary bytes)
+//
+//	ie enc <ie> <value>        -> ok <hex> <GetLength> | err <GetLength>
+//	ie rt  <ie> <value> <tail> -> ok <hex> <len> <records> | encerr | decerr   (encode, then let the
+//	                              collector's data-set decoder consume hex+tail with the one-element template)
+//	ie dec <ie> <hex>          -> ok <records> | err     (collector decoder on arbitrary bytes)
+//	ie recbuf <elems>          -> buf <GetRecordLength> <hex of GetBuffer> | paths-differ ...
+//	                              (<elems> = ie=value,ie=value as in `bld add`; an encoding data record
+//	                              built from the elements, whatever their values: GetBuffer only logs
+//	                              the error of an element and goes on. Built twice, by AddRecordV2 and
+//	                              by AddRecord; the two must agree.)
+//	                              Elements of a type without typed constructor (mkElem's default branch)
+//	                              are carried by an octet-array / unsigned64 / boolean element; for a byte
+//	                              value and declared length 65535 that carrier reports len(value)+1 -
+//	                              no such element exists in the model, generators do not produce it.
 func init() { engines["ie"] = engIE }
 
 var ieCollector *collector.CollectingProcess
@@ -58,7 +68,52 @@ func recordsToken(set entities.Set) string {
 	return strings.Join(recs, ";")
 }
 
+// recbuf builds the data record through the public API and returns what the exporter would copy out.
+func recbuf(tok string) string {
+	build := func(v2 bool) (int, []byte, error) {
+		// a fresh element slice per record: AddRecordV2 keeps the slice it is given
+		elems, err := parseElems(tok)
+		if err != nil {
+			return 0, nil, err
+		}
+		set := entities.NewSet(false)
+		if err := set.PrepareSet(entities.Data, 256); err != nil {
+			return 0, nil, err
+		}
+		if v2 {
+			err = set.AddRecordV2(elems, 256)
+		} else {
+			err = set.AddRecord(elems, 256)
+		}
+		if err != nil {
+			return 0, nil, err
+		}
+		rec := set.GetRecords()[0]
+		l := rec.GetRecordLength()
+		b := rec.GetBuffer()
+		return l, b, nil
+	}
+	if _, err := parseElems(tok); err != nil {
+		return "bad-op"
+	}
+	l2, b2, err := build(true)
+	if err != nil {
+		return "adderr"
+	}
+	l0, b0, err := build(false)
+	if err != nil {
+		return "adderr"
+	}
+	if l2 != l0 || hexs(b2) != hexs(b0) {
+		return fmt.Sprintf("paths-differ %d %s %d %s", l2, hexs(b2), l0, hexs(b0))
+	}
+	return fmt.Sprintf("buf %d %s", l2, hexs(b2))
+}
+
 func engIE(a []string) string {
+	if len(a) == 2 && a[0] == "recbuf" {
+		return recbuf(a[1])
+	}
 	if len(a) < 3 {
 		return "bad-op"
 	}
